@@ -397,6 +397,15 @@ def special_files(ctx):
                 files.append(([[(1.0, group_text(first))], [(2.0, group_text(rep))] * n], [[first], [rep] * n], "identical-rows"))
                 files.append(([[(1.0, group_text(first))], [(2.0, group_text(rep))] * (n - 1) + [(1.5, group_text(rep, "0.5 s"))]],
                               [[first], [rep] * n], "identical-row-and-delayed-group"))
+    # the same delayed marker twice in one row (identical, or differing in the letter case of the name): both copies leave the
+    # row; a marker of that name between the row and the shifted time sees neither
+    for mark in ("Onset", "Offset"):
+        for second in ("A", "a"):
+            doubled = f"(Def/A, {mark}, Delay/2 s), (Def/{second}, {mark}, Delay/2 s)"
+            before = [] if mark == "Onset" else [[("Onset", "A")]]
+            before_rows = [] if mark == "Onset" else [[(0.5, group_text(("Onset", "A")))]]
+            files.append((before_rows + [[(2.0, group_text(("Inset", "A")))], [(1.0, doubled)]],
+                          before + [[("Inset", "A")], [(mark, "A"), (mark, second)]], "doubled-delayed-marker"))
     # marker rows that draw a warning only (extension, missing unit)
     for extra in ("Item/Gizmo", "Label/Abc", "(Item/Gizmo, Blue)"):
         for tail_ in (("Offset", "A"), ("Inset", "A")):
